@@ -11,8 +11,14 @@ open Paloma.Abi Paloma.SignBytes Paloma.Attest
         <currentSnapshot> <userDeployments> <handoverOk 0|1> <userActive>  → ok
   msg <valsetValidators> <valsetPowers> <valsetId> <sigs x<ext>:v:r:s,…> <contractId|->
       <kind> <turnstone> <relayer> <id> <estimate> <fields…>               → ok
-        (fields as in `C05 sb`, except `up`: <bytecode> <constructorInput>; inserts or
+        (fields as in `C05 sb`, except `up`: <bytecode> <constructorInput> [<upOk 0|1>] — upOk (default
+         1): the message's own ABI parses and its constructor input, when present, unpacks; inserts or
          replaces the stored message with that id)
+  compass <parses 0|1> <update_valset 0|1> <submit_logic_call 0|1> <deploy_contract 0|1>
+          <compass_update_batch 0|1>                                        → ok
+        (the ABI of the LATEST compass, `GetLastCompassContract`: does it parse; per delivery method:
+         1 = declared with the parameter list of the repository's compass, 0 = absent or declared with
+         a parameter list `Pack` refuses the arguments for.  Kept across `chain`, reset by `reset`.)
   rm <id>                                                                  → ok
   attestev <id> <shares addr:share,…> <totalShares> <evidence>…   (store order; one token each)
         evidence: <addr>;tx;<hash>;<status|->;<data>;<deployLog 0|1>;<receiptVariant>[;<txEncoding>]
@@ -66,13 +72,17 @@ def parseCid? (s : String) : Option (Option Nat) :=
 
 def parseQMsg? (args : List String) : Option QMsg :=
   match args with
-  | cvals :: cpows :: cvid :: sigs :: cid :: "up" :: _ts :: _rel :: id :: _est :: [bc, ctor] => do
+  | cvals :: cpows :: cvid :: sigs :: cid :: "up" :: _ts :: _rel :: id :: _est :: bc :: ctor :: okTok => do
     let vs : GoValset := { validators := ← Driver.C05.parseBytesList? cvals, powers := ← parseNatList? cpows,
                            valsetId := ← parseNat? cvid }
     let cid ← parseCid? cid
     let cid ← cid
+    let ok ← (match okTok with
+      | [] => some true
+      | [t] => parseBool? t
+      | _ => none)
     pure { id := ← parseNat? id, action := .up (← Driver.C05.parseBytes? bc) (← Driver.C05.parseBytes? ctor) cid,
-           valset := vs, sigs := ← parseSigs? sigs }
+           valset := vs, sigs := ← parseSigs? sigs, upOk := ok }
   | cvals :: cpows :: cvid :: sigs :: cid :: rest => do
     let vs : GoValset := { validators := ← Driver.C05.parseBytesList? cvals, powers := ← parseNatList? cpows,
                            valsetId := ← parseNat? cvid }
@@ -112,7 +122,7 @@ def resClass (r : Res) : String :=
   | .unknownMsg => "unknown"
   | .txFailed => "txfailed"
   | .notVerified => "notverified"
-  | .alreadyProcessed | .receiptErr | .postErr => "err"
+  | .alreadyProcessed | .receiptErr | .postErr | .encodeErr => "err"
 
 def parseWinner? (args : List String) : Option Winner :=
   match args with
@@ -163,9 +173,16 @@ def step (d : State) (args : List String) : State × String :=
           parseNatList? ud, parseBool? ho, parseNatList? ua with
     | some deps, some act, some live, some snaps, some cur, some ud, some ho, some ua =>
       let c : Chain := { deployments := deps, activeContract := act, liveOn := live, snapshots := snaps,
-                         currentSnapshot := cur, userDeployments := ud, userActive := ua, handoverOk := ho }
+                         currentSnapshot := cur, userDeployments := ud, userActive := ua, handoverOk := ho,
+                         abi := d.s.chain.abi }
       ({ d with s := { d.s with chain := c } }, "ok")
     | _, _, _, _, _, _, _, _ => (d, "bad-op")
+  | ["compass", ps, uv, slc, usc, ch] =>
+    match parseBool? ps, parseBool? uv, parseBool? slc, parseBool? usc, parseBool? ch with
+    | some ps, some uv, some slc, some usc, some ch =>
+      let a : CompassAbi := { parses := ps, uv := uv, slc := slc, usc := usc, ch := ch }
+      ({ d with s := { d.s with chain := { d.s.chain with abi := a } } }, "ok")
+    | _, _, _, _, _ => (d, "bad-op")
   | "msg" :: rest =>
     match parseQMsg? rest with
     | some m =>
